@@ -36,6 +36,7 @@ LAYOUT_UNIVERSE = Universe({
     "cs": "/vws/R/s/conftest.py", "u": "/vws/R/a/b/test_u.py", "o": "/vws/R/a/b/test_o.py",
     "m": "/vws/R/a/b/mod_m.py", "h0": "/vws/R/helper0.py", "h1": "/vws/R/a/helper1.py",
     "h2": "/vws/R/a/b/helper2.py", "hh": "/vws/R/a/helperh.py",
+    "t0": "/vws/R/test_t0.py", "t1": "/vws/R/a/test_t1.py",
     "pl": "/vws/plugsrc/plug.py",
     "tp": "/vws/venv/lib/python3.11/site-packages/tp/plugin.py",
 })
